@@ -26,8 +26,42 @@ Theorem C11_read_fails_with_aborted :
   pinv (rsp r) ->
   bytes_ok (remaining w) ->
   (length (wscript w) + length (remaining w) + 2 <= fuel)%nat ->
-  poll_input maxc fuel dest r w = (PReady (inr EK_Aborted), r', w') -> err_at (abs (rsp r')) EAbortRequest.
+  poll_input maxc fuel dest r w = (PReady (inr EK_Aborted), r', w') ->
+  err_at (abs (rsp r')) EAbortRequest /\ raborted r' = true \/
+  fault_of EK_Aborted (wscript w) /\ raborted r' = raborted r.
 Proof. exact poll_input_aborted. Qed.
+
+(* (added by hand, not in tools/write_props.py) on a transport whose writes do not fail the kind Aborted is reported
+   exactly for the parser's AbortRequest, and Request.aborted is then set; a failing flush whose error has the kind
+   ConnectionAborted (the second disjunct above) leaves the flag alone, so that the connection loop does not take
+   it for a client abort *)
+Theorem C11_read_fails_with_aborted_no_fault :
+  forall (maxc : N) (fuel : nat) (dest : option N) (r : rstate) (w : world) (r' : rstate) (w' : world),
+  pinv (rsp r) ->
+  bytes_ok (remaining w) ->
+  (length (wscript w) + length (remaining w) + 2 <= fuel)%nat ->
+  no_fault (wscript w) ->
+  poll_input maxc fuel dest r w = (PReady (inr EK_Aborted), r', w') ->
+  err_at (abs (rsp r')) EAbortRequest /\ raborted r' = true.
+Proof. exact poll_input_aborted_no_fault. Qed.
+
+(* (added by hand) Request.aborted is set only by a read that returns the parser's AbortRequest ... *)
+Theorem C11_aborted_flag_source :
+  forall (maxc : N) (fuel : nat) (dest : option N) (r : rstate) (w : world) (p : pres (N * bytes + N))
+    (r' : rstate) (w' : world),
+  pinv (rsp r) ->
+  bytes_ok (remaining w) ->
+  (length (wscript w) + length (remaining w) + 2 <= fuel)%nat ->
+  poll_input maxc fuel dest r w = (p, r', w') ->
+  raborted r = false -> raborted r' = true ->
+  p = PReady (inr EK_Aborted) /\ err_at (abs (rsp r')) EAbortRequest.
+Proof. exact poll_input_sets_aborted. Qed.
+
+(* (added by hand) ... and nothing a handler does clears it *)
+Theorem C11_aborted_flag_sticky :
+  forall (maxc : N) (f : nat) (script : list N) (r : rstate) (w : world) (st : N * N + N) (r' : rstate) (w' : world),
+  run_handler maxc f script r w = Ok (st, r') w' -> raborted r = true -> raborted r' = true.
+Proof. exact run_handler_raborted_mono. Qed.
 
 (* the error repeats: every later read reports it again (or the error of a failing flush), never touches the
    transport's read side, never suspends for good *)
@@ -43,7 +77,7 @@ Theorem C11_abort_sticky :
       pinv (rsp r') /\
       err_at (abs (rsp r')) e /\
       (poll_parses dest r = true ->
-       exists k : N, res = inr k /\ (k = perr_kind e \/ k = EK_WriteZero \/ k = EK_Transport)) /\
+       exists k : N, res = inr k /\ (k = perr_kind e \/ fault_of k (wscript w))) /\
       (poll_parses dest r = false -> w' = w /\ (exists x : N * bytes, res = inl x))
   | Halt o _ => o = OFuel
   end.
@@ -60,7 +94,7 @@ Theorem C11_prefix_before_error :
   poll_input maxc fuel dest r w = (p, r', w') ->
   exists dl : bytes,
     acct maxc [] r w dl r' w' /\
-    pi_case maxc dest dl r p r' w' /\
+    pi_case maxc dest dl r w p r' w' /\
     rwriteable r' = rwriteable r || poll_parses dest r && is_inl p && is_final_stream r.
 Proof. exact poll_input_reads. Qed.
 
@@ -72,7 +106,7 @@ Theorem C11_boundary_ignores_abort :
   len new <= sinput_space (rsp r) ->
   sparse maxc (rsp r) new None = StErr p' EAbortRequest s ->
   boundary_loop maxc (S f) new r w =
-  Ok (None, {| rsp := p'; rwriteable := rwriteable r; rlock := rlock r |}) w /\
+  Ok (None, {| rsp := p'; rwriteable := rwriteable r; rlock := rlock r; raborted := raborted r |}) w /\
   err_at (abs p') EAbortRequest.
 Proof. exact boundary_loop_abort. Qed.
 
@@ -83,7 +117,8 @@ Theorem C11_one_endrequest_and_reuse :
     (w' : world) (p2 : sp) (r3 : rstate) (w2 : world) (ep : bytes),
   close_tail maxc r1 disc code w1 = Ok x w' ->
   set_stream (rsp r1) None = SetOk p2 ->
-  record_boundary maxc {| rsp := p2; rwriteable := rwriteable r1; rlock := rlock r1 |} w1 =
+  record_boundary maxc
+    {| rsp := p2; rwriteable := rwriteable r1; rlock := rlock r1; raborted := raborted r1 |} w1 =
   Ok (None, r3) w2 ->
   epilogue (r_id (sreq (rsp r3))) disc code (if rwriteable r1 then ROLE_OUTPUT_STREAMS else []) = Some ep ->
   let total := output_buffer (rsp r3) ++ ep in
@@ -92,7 +127,7 @@ Theorem C11_one_endrequest_and_reuse :
   | inl rp => wlog w' = wlog w1 ++ total /\ keep /\ into_request_parser (close_p4 r3) = ConvOk rp
   | inr k =>
       wlog w' = wlog w1 ++ total /\ k = EK_Reset /\ ~ keep \/
-      (k = EK_WriteZero \/ k = EK_Transport) /\
+      (k = EK_WriteZero \/ k = EK_Transport \/ k = EK_Aborted) /\
       ~ no_fault (wscript w2) /\
       (exists b1 b2 : list N, total = b1 ++ b2 /\ b2 <> [] /\ wlog w' = wlog w1 ++ b1)
   end.
